@@ -896,6 +896,11 @@ class Message(ABC):
 
                 if meta.group:
                     # This was set, so make it the selected value of the one-of.
+                    previous = group_current[meta.group]
+                    if previous is not None:
+                        # several members of one group were passed: only the
+                        # selected one keeps its value
+                        super().__setattr__(previous, PLACEHOLDER)
                     group_current[meta.group] = field_name
 
         # Now that all the defaults are set, reset it!
